@@ -42,6 +42,7 @@ def run(prog, res):
   _toposort(prog, res)
   _orientation(prog, res)
   _scaling(prog, res)
+  _divisor_guard(prog, res)
   _norm(prog, res)
   _categorical_project(prog, res)
   _wiring(prog, res)
@@ -49,6 +50,7 @@ def run(prog, res):
   res.floor('O2', 12)
   res.floor('A4', 5)
   res.floor('P4', 4)
+  res.floor('D2', 3)
   res.floor('X1', 2)
   res.floor('W4', 2)
   res.floor('W1', 9)
@@ -606,3 +608,68 @@ def _toposort(prog, res):
             'result is finish order (successors first), the reverse of a '
             'topological order' % (kind, 'reversed' if reversed_ret else
                                    'as is'))
+
+
+def _divisor_guard(prog, res):
+  """D2: the range scaling `upper - lower` is multiplied in and divided out
+  again.  The validator accepts lower == upper (a constant clipped input), so
+  the width may only enter the scaling under a guard that implies a positive
+  width, and dimensions of a range-dominance pair - whose width defines the
+  constraint - must be rejected when lower >= upper; otherwise a zero-width
+  range turns the weight into 0 / 0 = NaN."""
+  for q in ('linear_lib.project', 'linear_lib.assert_constraints'):
+    fn = prog.function(q)
+    res.analysed(fn)
+    sites = []
+    for st in ast.walk(fn.node):
+      if isinstance(st, (ast.AugAssign, ast.Assign)):
+        v = st.value
+        for b in ast.walk(v):
+          if isinstance(b, ast.BinOp) and isinstance(b.op, ast.Sub) and \
+              {dotted(b.left), dotted(b.right)} == {'upper', 'lower'}:
+            sites.append((st, b))
+    if not sites:
+      raise AnalysisError('%s: the range width upper - lower vanished' % q)
+    for i, (st, b) in enumerate(sites):
+      gs = structural_guards(fn.node, st) or []
+      strict = False
+      for t, pol in gs:
+        for c in ast.walk(t):
+          if isinstance(c, ast.Compare) and len(c.ops) == 1 and pol:
+            l, r = dotted(c.left), dotted(c.comparators[0])
+            if (isinstance(c.ops[0], ast.Gt) and (l, r) == ('upper', 'lower')) \
+                or (isinstance(c.ops[0], ast.Lt) and (l, r) == (
+                    'lower', 'upper')) or (isinstance(c.ops[0], ast.NotEq)
+                                           and {l, r} == {'upper', 'lower'}):
+              strict = True
+      res.check(strict, 'D2', '%s|width-guard%s' % (q, '#%d' % (i + 1) if i
+                                                    else ''), fn.loc(st),
+                'the width enters the scaling only when upper > lower',
+                '`%s` uses the width of the input range without excluding '
+                'upper == lower, which the validator accepts: the weights are '
+                'multiplied and divided by 0 and become NaN' % norm_text(st)[
+                    :50])
+  v = prog.function('linear_lib.verify_hyperparameters')
+  res.analysed(v)
+  good = False
+  for loop in ast.walk(v.node):
+    if isinstance(loop, ast.For) and dotted(loop.iter) == 'range_dominances':
+      for st in ast.walk(loop):
+        if isinstance(st, ast.If) and any(isinstance(x, ast.Raise)
+                                          for x in st.body):
+          for c in ast.walk(st.test):
+            if isinstance(c, ast.Compare) and len(c.ops) == 1:
+              l = norm_text(c.left).replace(' ', '')
+              r = norm_text(c.comparators[0]).replace(' ', '')
+              if (isinstance(c.ops[0], ast.GtE) and l.startswith('input_min[')
+                  and r.startswith('input_max[')) or (
+                      isinstance(c.ops[0], ast.LtE) and l.startswith(
+                          'input_max[') and r.startswith('input_min[')):
+                good = True
+  res.check(good, 'D2', 'linear_lib.verify_hyperparameters|pair-width',
+            v.loc(),
+            'dimensions of a range dominance pair are rejected when '
+            'input_min >= input_max',
+            'a range dominance pair on a zero-width input range is accepted: '
+            'its scaled constraint is 0 * w_dominant >= range * w_weak and the '
+            'scaling cannot be undone')
